@@ -182,6 +182,8 @@ def handler(payload):
                         os.path.join(ws, "keys_certs/ec_pk_secp256r1_sign_cert.pem")),
         "v21_384_384": (os.path.join(ws, "cfgs/cert_block/cert_384_384_data.yaml"),
                         os.path.join(ws, "keys_certs/ec_pk_secp384r1_sign_cert.pem")),
+        "vx": (os.path.join(ws, "cfgs/cert_block/vx_cert_256_256.yaml"),
+               os.path.join(ws, "keys_certs/ec_pk_secp256r1_sign_cert.pem")),
     }
 
     def fix_paths(cfg_path, outdir):
@@ -254,6 +256,8 @@ def handler(payload):
             cfg["lifeCycle"] = o["lifecycle"]
         if o.get("just_header") is not None:
             cfg["justHeader"] = bool(o["just_header"])
+        if o.get("add_cert_hash") is not None:
+            cfg["addCertHash"] = bool(o["add_cert_hash"])
         return cfg
 
     def make(cfg, d, record, validate=True):
@@ -309,8 +313,17 @@ def handler(payload):
                 isk = getattr(cb, "isk_certificate", None)
                 if isk is not None and getattr(isk, "signature", None):
                     ob["cert"]["isk_signature"] = bytes(isk.signature).hex()
+                if hasattr(cb, "cert_hash"):
+                    ob["cert"]["cert_hash"] = bytes(cb.cert_hash).hex()
             except Exception as ex:  # noqa
                 ob["cert"] = {"error": type(ex).__name__}
+        for a in ("add_hash", "just_header"):
+            if hasattr(m, a):
+                ob[a] = bool(getattr(m, a))
+        for a in ("bca", "fcf"):
+            if hasattr(m, a):
+                v = getattr(m, a)
+                ob[a] = bytes(v.export()).hex() if v is not None else None
         if hasattr(m, "manifest") and m.manifest is not None:
             mf = m.manifest
             ob["manifest"] = {"kind": type(mf).__name__, "flags": mf.flags, "total_length": mf.total_length,
